@@ -4,6 +4,10 @@
 //
 //   huff <n> r1..rn      GNode::AddEvent x n, InitEscapeRate, MakeHuffTree; prints
 //                        "esc <escape rate>" and "thr <node thresholds in htree order>"
+//   new | hop <r> | decay <r> | init | make
+//                        call histories on ONE GNode: fresh node, GNode::AddEvent,
+//                        GNode::AddDecayEvent, InitEscapeRate (prints "esc"), MakeHuffTree
+//                        (prints "thr" and the tree's own normalisation "sov")
 //   probe <m> p1..pm     GNode::findHoppingDestination(p) -> "sel i1..im" (event index, 0-based)
 //   cells                partition of [0,1] by the tree's own thresholds: for every cell between
 //                        consecutive thresholds the event selected at its midpoint, the cell ends
@@ -116,6 +120,30 @@ int main() {
         std::cout << "thr";
         for (const auto& hn : node->hTree.htree) std::cout << " " << hn.probability;
         std::cout << std::endl;
+      } else if (cmd == "new") {
+        node.reset(new GNode(seg0, QMStateType(QMStateType::Electron), true));
+        dests.assign(1, GNode(seg0, QMStateType(QMStateType::Electron), true));
+        std::cout << "ok" << std::endl;
+      } else if (cmd == "hop" || cmd == "decay") {
+        double r;
+        in >> r;
+        if (!in || !node) throw std::runtime_error("bad hop/decay command");
+        if (cmd == "hop") {
+          node->AddEvent(&dests[0], Eigen::Vector3d(double(node->Events().size()), 0, 0), r);
+        } else {
+          node->AddDecayEvent(r);
+        }
+        std::cout << "ok " << node->Events().size() << std::endl;
+      } else if (cmd == "init") {
+        node->InitEscapeRate();
+        std::cout << "esc " << node->getEscapeRate() << std::endl;
+      } else if (cmd == "make") {
+        node->MakeHuffTree();
+        std::cout << "thr";
+        for (const auto& hn : node->hTree.htree) std::cout << " " << hn.probability;
+        std::cout << std::endl;
+        std::cout << "sov " << node->hTree.sum_of_values << " esc " << node->getEscapeRate()
+                  << std::endl;
       } else if (cmd == "probe") {
         long m;
         in >> m;
